@@ -5,6 +5,7 @@ exactly the corresponding tokens.  A word may hold spaces (the custom IsIdentRun
 space is skipped by the scanner), so "a b, c" is the two words "a b" and "c".
 -/
 import DialsModel.Lemmas.Scan
+import DialsModel.Lemmas.QuoteItems
 import DialsModel.Model.ParseInt
 
 namespace Dials.Parse
@@ -12,6 +13,7 @@ namespace Dials.Parse
 inductive WPiece where
   | word (w : S)
   | str (z : S)
+  | qstr (is : List QItem)          -- any byte string, quoted item by item (Model/QuoteItems.lean)
   | comma
   | colon
 deriving Repr, DecidableEq
@@ -19,12 +21,14 @@ deriving Repr, DecidableEq
 def WPiece.tok : WPiece → Tok
   | .word w => .word w
   | .str z => .str (some z)
+  | .qstr is => .str (some (itemsBytes is))
   | .comma => .comma
   | .colon => .colon
 
 def WPiece.text : WPiece → List Char
   | .word w => w
   | .str z => quote z
+  | .qstr is => quoteItems is
   | .comma => [',']
   | .colon => [':']
 
@@ -39,6 +43,7 @@ def BareWord (m : Bool) (w : S) : Prop := w ≠ [] ∧ (∀ c ∈ w, identRune m
 def WPiece.ok (m : Bool) : WPiece → Prop
   | .word w => BareWord m w
   | .str z => z.all isAscii = true
+  | .qstr is => ∀ i ∈ is, i.ok
   | .comma => True
   | .colon => m = true
 
@@ -84,6 +89,7 @@ theorem wpiece_noNUL (m : Bool) (p : WPiece) (h : p.ok m) : p.text.contains NUL 
   cases p with
   | word w => exact word_noNUL m w h.2.1
   | str z => exact quote_noNUL z h
+  | qstr is => exact quoteItems_noNUL is h
   | comma => decide
   | colon => decide
 
@@ -106,6 +112,7 @@ theorem nonword_head (m : Bool) (q : WPiece) (hq : q.ok m) (hw : q.isWord = fals
   cases q with
   | word w => simp [WPiece.isWord] at hw
   | str z => simp [WPiece.text, quote] at hc; subst hc; exact identRune_quote m
+  | qstr is => simp [WPiece.text, quoteItems] at hc; subst hc; exact identRune_quote m
   | comma => simp [WPiece.text] at hc; subst hc; exact identRune_comma m
   | colon =>
     have hm : m = true := hq
@@ -129,6 +136,9 @@ theorem scanTok_wpiece (m : Bool) (p : WPiece) (h : p.ok m) (rest : List Char)
   | str z =>
     refine ⟨'"', quoteBody z ++ '"' :: rest, by simp [WPiece.text, quote], by decide, ?_⟩
     simp [scanTok, identRune_quote, scanStrBody_quoteBody z h, unqBody_quoteBody z h, WPiece.tok]
+  | qstr is =>
+    obtain ⟨cs, hcs, htok⟩ := scanTok_quoteItems m is h rest
+    exact ⟨'"', cs, hcs, by decide, htok⟩
   | comma =>
     refine ⟨',', rest, by simp [WPiece.text], by decide, ?_⟩
     simp [scanTok, identRune_comma, WPiece.tok]
@@ -142,6 +152,7 @@ theorem wpiece_text_length_pos (m : Bool) (p : WPiece) (h : p.ok m) : 0 < p.text
   cases p with
   | word w => have := h.1; cases w <;> simp_all [WPiece.text]
   | str z => simp [WPiece.text, quote]
+  | qstr is => simp [WPiece.text, quoteItems]
   | comma => simp [WPiece.text]
   | colon => simp [WPiece.text]
 
@@ -336,6 +347,87 @@ theorem pairPieces_renderable : ∀ kvs : List (S × S), (∀ p ∈ kvs, BareWor
     have hkv := h (k, v) (by simp)
     have ih := pairPieces_renderable (q :: rest) (fun x hx => h x (by simp [List.mem_cons] at hx ⊢; right; exact hx))
     refine ⟨hkv.1, fun _ => rfl, rfl, fun h => by simp [WPiece.isWord] at h, hkv.2, fun _ => rfl, ?_⟩
+    obtain ⟨k2, v2⟩ := q
+    cases rest with
+    | nil => exact ⟨trivial, fun h => by simp [WPiece.isWord] at h, ih⟩
+    | cons u us => exact ⟨trivial, fun h => by simp [WPiece.isWord] at h, ih⟩
+
+/-! ### slices and maps of ARBITRARY strings, printed item by item -/
+
+def printSliceItems : List (List QItem) → List Char
+  | [] => []
+  | [x] => quoteItems x
+  | x :: xs => quoteItems x ++ ',' :: printSliceItems xs
+
+def qslicePieces : List (List QItem) → List WPiece
+  | [] => []
+  | [x] => [.qstr x]
+  | x :: y :: xs => .qstr x :: .comma :: qslicePieces (y :: xs)
+
+theorem printSliceItems_wrender : ∀ xs, printSliceItems xs = wrender (qslicePieces xs)
+  | [] => rfl
+  | [x] => by simp [printSliceItems, qslicePieces, wrender, WPiece.text]
+  | x :: y :: xs => by
+    have := printSliceItems_wrender (y :: xs)
+    simp [printSliceItems, qslicePieces, wrender, WPiece.text] at this ⊢
+    exact this
+
+theorem qslicePieces_toks : ∀ xs, (qslicePieces xs).map WPiece.tok ++ [.eof] = canonSlice (xs.map itemsBytes)
+  | [] => rfl
+  | [x] => rfl
+  | x :: y :: xs => by
+    have := qslicePieces_toks (y :: xs)
+    simp [qslicePieces, canonSlice, WPiece.tok] at this ⊢
+    exact this
+
+theorem qslicePieces_renderable (m : Bool) : ∀ xs : List (List QItem), (∀ x ∈ xs, ∀ i ∈ x, i.ok) → Renderable m (qslicePieces xs)
+  | [], _ => trivial
+  | [x], h => h x (by simp)
+  | x :: y :: xs, h => by
+    have ih := qslicePieces_renderable m (y :: xs) (fun z hz => h z (by simp [List.mem_cons] at hz ⊢; right; exact hz))
+    refine ⟨h x (by simp), fun hw => by simp [WPiece.isWord] at hw, ?_⟩
+    cases xs with
+    | nil => exact ⟨trivial, fun h => by simp [WPiece.isWord] at h, ih⟩
+    | cons u us => exact ⟨trivial, fun h => by simp [WPiece.isWord] at h, ih⟩
+
+def printMapItems : List (List QItem × List QItem) → List Char
+  | [] => []
+  | [(k, v)] => quoteItems k ++ ':' :: quoteItems v
+  | (k, v) :: rest => quoteItems k ++ ':' :: (quoteItems v ++ ',' :: printMapItems rest)
+
+def qmapPieces : List (List QItem × List QItem) → List WPiece
+  | [] => []
+  | [(k, v)] => [.qstr k, .colon, .qstr v]
+  | (k, v) :: q :: rest => .qstr k :: .colon :: .qstr v :: .comma :: qmapPieces (q :: rest)
+
+theorem printMapItems_wrender : ∀ kvs, printMapItems kvs = wrender (qmapPieces kvs)
+  | [] => rfl
+  | [(k, v)] => by simp [printMapItems, qmapPieces, wrender, WPiece.text]
+  | (k, v) :: q :: rest => by
+    have := printMapItems_wrender (q :: rest)
+    simp [printMapItems, qmapPieces, wrender, WPiece.text] at this ⊢
+    exact this
+
+theorem qmapPieces_toks : ∀ kvs : List (List QItem × List QItem),
+    (qmapPieces kvs).map WPiece.tok ++ [.eof] = canonMap (kvs.map fun p => (itemsBytes p.1, itemsBytes p.2))
+  | [] => rfl
+  | [(k, v)] => rfl
+  | (k, v) :: q :: rest => by
+    have := qmapPieces_toks (q :: rest)
+    simp [qmapPieces, canonMap, WPiece.tok] at this ⊢
+    exact this
+
+theorem qmapPieces_renderable : ∀ kvs : List (List QItem × List QItem),
+    (∀ p ∈ kvs, (∀ i ∈ p.1, i.ok) ∧ (∀ i ∈ p.2, i.ok)) → Renderable true (qmapPieces kvs)
+  | [], _ => trivial
+  | [(k, v)], h => by
+    have hkv := h (k, v) (by simp)
+    exact ⟨hkv.1, fun hw => by simp [WPiece.isWord] at hw, rfl, fun h => by simp [WPiece.isWord] at h, hkv.2⟩
+  | (k, v) :: q :: rest, h => by
+    have hkv := h (k, v) (by simp)
+    have ih := qmapPieces_renderable (q :: rest) (fun x hx => h x (by simp [List.mem_cons] at hx ⊢; right; exact hx))
+    refine ⟨hkv.1, fun hw => by simp [WPiece.isWord] at hw, rfl, fun h => by simp [WPiece.isWord] at h, hkv.2,
+      fun hw => by simp [WPiece.isWord] at hw, ?_⟩
     obtain ⟨k2, v2⟩ := q
     cases rest with
     | nil => exact ⟨trivial, fun h => by simp [WPiece.isWord] at h, ih⟩
